@@ -401,7 +401,7 @@ def r3_refusal(ctx, F):
         b = F.method(OFS, nm)
         ctx.fn_seen(b)
         v = vf.VF(b, inline_depth=0)
-        gate = ("Option::is_none(self.upper_layer)", 0)
+        gate = ("Option::is_some(self.upper_layer)", "otherwise")      # normal form of `!self.upper_layer.is_none()`
         gate2 = "discr(Result::branch(Option::ok_or_else(Option::cloned(Option::as_ref(self.upper_layer)), "
         bad = []
         n = 0
@@ -482,6 +482,30 @@ def r8_forwarding(ctx, F):
                     ctx.check(rule, "%s->%s/%s" % (owner, c.name, tt), pn[i] == tt,
                               "%s passes its `%s` as the layer's `%s` in %s(..)" % (owner, tt, pn[i], c.name), loc=c.loc(), detail="%s@%d" % (tt, i))
     ctx.check(rule, "sites", n >= 60, "only %d same-named arguments found between overlay operations and layer calls" % n)
+
+
+def loop_edge_facts(b, v, header):
+    """[({fact: 'exit'|'loop'}, bb, guards)] for the boolean switches inside the loop of `header`; each edge is named by the fact
+    that holds on it, in guard normal form (`!x` for a plain boolean that is false), so swapped arms and negated conditions
+    give the same description."""
+    out = []
+    for u in sorted(b.reachable()):
+        t = b.term(u)
+        if t[0] != "switch" or not b.dominates(header, u) or not b.can_reach(u, header):
+            continue
+        c = v.operand(t[1], u, len(b.stmts(u)))
+        d = {}
+        for (lab, tgt) in b.switch_edges(u):
+            kind = "loop" if b.can_reach(tgt, header) else "exit"
+            if t[4] == "bool":
+                cc, l2 = vf.canon_guard(c, lab)
+                txt = R(cc, b, v)
+                d[txt if l2 != 0 else "!" + txt] = kind
+            else:
+                d["%s==%s" % (R(c, b, v), lab)] = kind
+        g = [(R(x, b, v), l) for (x, l, w) in v.guards(u)]
+        out.append((d, u, g))
+    return out
 
 
 def layer_scan(ctx, F, rule):
@@ -670,6 +694,18 @@ def r4_union(ctx, F):
             g = [(R(x, b, v), l) for (x, l, u) in v.guards(c.bb)]
             ok = any("whiteout, Relaxed)" in t and l == 0 for (t, l) in g)
     ctx.check(rule, "hidden/readdir", ok, "do_readdir lists whiteout-ed children", loc=b.loc())
+    # a listing without a directory handle (no_opendir) resolves the directory through lookup_node(inode, "."): that is what loads
+    # the directory's children from the layers; taking the node from the inode table alone lists a never-loaded directory as empty
+    hg = [c for c in live_calls(b) if c.name == "get" and "HashMap" in (c.fn or "")]
+    ln = [c for c in live_calls(b) if c.name == "lookup_node"]
+    ok = len(hg) == 1 and len(ln) == 1
+    if ok:
+        a = [R(x, b, v) for x in v.call_args(ln[0])][1:]
+        g = [(R(x, b, v), l) for (x, l, u) in v.guards(ln[0].bb)]
+        ok = a == ["ctx", "inode", 'k(".")'] and any(t.startswith("discr(HashMap::get(") and l == 0 for (t, l) in g)
+        gi = [c for c in live_calls(b) if c.name == "get_active_inode"]
+        ok = ok and not gi
+    ctx.check(rule, "readdir/handle-less-listing-loads", ok, "do_readdir without a directory handle must resolve the directory with lookup_node(ctx, inode, \".\") (which loads its children)", loc=b.loc())
     ctx.floor(rule, 22)
 
 
